@@ -315,6 +315,9 @@ func TestCheck(t *testing.T) {
 			}
 		}
 	}
+	for _, k := range []int{1, 9, 20, 60} {
+		cases = append(cases, faults.Case{Kind: "abort-many", Proto: "h2", K: k, Val: 0}, faults.Case{Kind: "abort-many", Proto: "h2", K: k, Val: 1})
+	}
 	// a backend slower than the proxy's own timeouts (server built by the binary's constructor: write/read 60 s, idle 180 s)
 	for _, proto := range []string{"h1", "h2"} {
 		for _, k := range []int{30, 61, 125, 200} {
